@@ -2,16 +2,17 @@
   Helper lemmas for C14 (determinism).
   * sorting forgets the order in which the keys were collected (`sortBy_eq_of_perm`);
   * `mkRecord` forgets the insertion order of distinct keys (`mkRecord_perm`);
-  * `evalKVs` reports the first error of the list it is given; consequences for a record literal
-    evaluated in two orders (`evalRecordLitOrd_perm`);
+  * a record literal evaluates its entries in key order (`canonKVs`, Lemmas/RecordLit.lean): the same result for
+    every order in which the map yields them (`evalRecordLitOrd_perm`);
   * `containsAll` / `containsAny` / `in` over permuted member lists;
   * the entity store is only read through `Get` (`eval_sameStore`);
-  * `simE`: equality of results up to WHICH error is reported, and its congruence lemmas.
+  * `simE`: equality of results up to WHICH error is reported (kept for the regression statement).
 -/
 import CedarGo.Model.Order
 import CedarGoProofs.Properties.C02
 import CedarGoProofs.Properties.C03
 import CedarGoProofs.Properties.C04
+import CedarGoProofs.Lemmas.RecordLit
 namespace CedarGo
 
 /-! ### sorting -/
@@ -122,6 +123,74 @@ theorem sortIds_eq_sortBy (l : List PolicyID) : sortIds l = sortBy strLe l := by
   induction l with
   | nil => rfl
   | cons x xs ih => simp only [sortIds, sortBy, ih, hi]
+
+
+/-! ### `canonKVs` (the evaluation / decoding order of a map's entries) is sorting by key -/
+
+theorem insertBy_sorted_of {α : Type} {le : α → α → Bool} (ht : ∀ a b, le a b = true ∨ le b a = true)
+    (htr : ∀ a b c, le a b = true → le b c = true → le a c = true) (x : α) (l : List α)
+    (hs : l.Pairwise (fun a b => le a b = true)) : (insertBy le x l).Pairwise (fun a b => le a b = true) := by
+  induction l with
+  | nil => simp [insertBy]
+  | cons y ys ih =>
+    have hy := List.pairwise_cons.mp hs
+    simp only [insertBy]
+    split
+    · rename_i hxy
+      refine List.pairwise_cons.mpr ⟨?_, hs⟩
+      intro a ha
+      cases ha with
+      | head => exact hxy
+      | tail _ ha => exact htr _ _ _ hxy (hy.1 a ha)
+    · rename_i hxy
+      have hyx : le y x = true := by
+        rcases ht x y with h1 | h1
+        · exact absurd h1 hxy
+        · exact h1
+      refine List.pairwise_cons.mpr ⟨?_, ih hy.2⟩
+      intro a ha
+      have := (insertBy_perm le x ys).mem_iff.mp ha
+      cases this with
+      | head => exact hyx
+      | tail _ ha => exact hy.1 a ha
+
+theorem sortBy_sorted_of {α : Type} {le : α → α → Bool} (ht : ∀ a b, le a b = true ∨ le b a = true)
+    (htr : ∀ a b c, le a b = true → le b c = true → le a c = true) (l : List α) :
+    (sortBy le l).Pairwise (fun a b => le a b = true) := by
+  induction l with
+  | nil => simp [sortBy]
+  | cons x xs ih => exact insertBy_sorted_of ht htr x _ ih
+
+theorem eq_of_key_eq {α : Type} : ∀ {l : List (String × α)}, (l.map (·.1)).Nodup → ∀ a ∈ l, ∀ b ∈ l, a.1 = b.1 → a = b
+  | [], _, a, ha, _, _, _ => by cases ha
+  | x :: l, nd, a, ha, b, hb, hk => by
+    simp only [List.map_cons, List.nodup_cons] at nd
+    rcases List.mem_cons.mp ha with ha' | ha'
+    · rcases List.mem_cons.mp hb with hb' | hb'
+      · rw [ha', hb']
+      · have : x.1 ∈ l.map (·.1) := List.mem_map.mpr ⟨b, hb', by rw [← hk, ha']⟩
+        exact absurd this nd.1
+    · rcases List.mem_cons.mp hb with hb' | hb'
+      · have : x.1 ∈ l.map (·.1) := List.mem_map.mpr ⟨a, ha', by rw [hk, hb']⟩
+        exact absurd this nd.1
+      · exact eq_of_key_eq nd.2 a ha' b hb' hk
+
+/-- On the entries of a Go map (distinct keys) `canonKVs` IS sorting by key: the model of
+    `for _, k := range slices.Sorted(maps.Keys(m))`. -/
+theorem canonKVs_eq_sortBy {α : Type} (l : List (String × α)) (nd : (l.map (·.1)).Nodup) :
+    canonKVs l = sortBy keyLe l := by
+  have ht : ∀ a b : String × α, keyLe a b = true ∨ keyLe b a = true := fun a b => strLe_linOrd.total a.1 b.1
+  have htr : ∀ a b c : String × α, keyLe a b = true → keyLe b c = true → keyLe a c = true :=
+    fun a b c => strLe_linOrd.trans a.1 b.1 c.1
+  have s1 : (canonKVs l).Pairwise (fun a b => keyLe a b = true) :=
+    (canonKVs_sorted l).imp (fun {a b} h => by
+      simp only [keyLe, strLe, decide_eq_true_eq]; exact String.not_lt.mp (String.lt_asymm h))
+  have s2 := sortBy_sorted_of ht htr l
+  have p1 := canonKVs_keys_perm l nd
+  have p2 := sortBy_perm keyLe l
+  refine List.Perm.eq_of_pairwise (le := fun a b => keyLe a b = true) ?_ s1 s2 (p1.trans p2.symm)
+  intro a b ha hb h1 h2
+  exact eq_of_key_eq nd a (p1.mem_iff.mp ha) b (p2.mem_iff.mp hb) (strLe_linOrd.antisymm a.1 b.1 h1 h2)
 
 
 /-! ### `mkRecord` does not depend on the order in which distinct keys are stored -/
@@ -251,65 +320,6 @@ theorem mkRecord_perm {l₁ l₂ : List (String × Value)} (hp : l₁.Perm l₂)
   unfold mkRecord
   exact congrArg Value.record this
 
-/-! ### `evalKVs`: first error wins -/
-
-/-- the value an entry evaluates to (junk if it errors) -/
-def entryVal (env : Env) (ke : String × Expr) : String × Value :=
-  (ke.1, match eval ke.2 env with | .ok v => v | .error _ => default)
-
-theorem evalKVs_ok_of_all_ok (kes : List (String × Expr)) (env : Env)
-    (h : ∀ ke ∈ kes, ∃ v, eval ke.2 env = .ok v) : evalKVs kes env = .ok (kes.map (entryVal env)) := by
-  induction kes with
-  | nil => simp [evalKVs]
-  | cons ke kes ih =>
-    obtain ⟨k, e⟩ := ke
-    obtain ⟨v, hv⟩ := h (k, e) (by simp)
-    have := ih (fun ke hke => h ke (by simp [hke]))
-    simp only [evalKVs, hv, this, bind, Except.bind, List.map_cons, entryVal]
-
-theorem evalKVs_error_mem (kes : List (String × Expr)) (env : Env) (err : Err)
-    (h : evalKVs kes env = .error err) : ∃ ke ∈ kes, eval ke.2 env = .error err := by
-  induction kes with
-  | nil => simp [evalKVs] at h
-  | cons ke kes ih =>
-    obtain ⟨k, e⟩ := ke
-    simp only [evalKVs, bind, Except.bind] at h
-    cases hv : eval e env with
-    | error e' =>
-      rw [hv] at h; simp at h
-      exact ⟨(k, e), by simp, by rw [hv, h]⟩
-    | ok v =>
-      rw [hv] at h; simp only at h
-      cases hr : evalKVs kes env with
-      | error e' =>
-        rw [hr] at h; simp at h
-        obtain ⟨ke, hke, he⟩ := ih (by rw [hr, h])
-        exact ⟨ke, by simp [hke], he⟩
-      | ok vs => rw [hr] at h; simp at h
-
-theorem evalKVs_error_of_mem (kes : List (String × Expr)) (env : Env) (ke : String × Expr) (err : Err)
-    (hm : ke ∈ kes) (he : eval ke.2 env = .error err) : ∃ err', evalKVs kes env = .error err' := by
-  cases h : evalKVs kes env with
-  | error e' => exact ⟨e', rfl⟩
-  | ok kvs =>
-    exfalso
-    induction kes generalizing kvs with
-    | nil => simp at hm
-    | cons x kes ih =>
-      obtain ⟨k, e⟩ := x
-      simp only [evalKVs, bind, Except.bind] at h
-      cases hv : eval e env with
-      | error e' => rw [hv] at h; simp at h
-      | ok v =>
-        rw [hv] at h; simp only at h
-        cases hr : evalKVs kes env with
-        | error e' => rw [hr] at h; simp at h
-        | ok vs =>
-          cases hm with
-          | head => simp only at he; rw [he] at hv; cases hv
-          | tail _ hm => exact ih hm vs hr
-
-
 theorem simE_refl {α : Type} (a : Except Err α) : simE a a := by cases a <;> simp [simE]
 
 theorem simE_symm {α : Type} {a b : Except Err α} (h : simE a b) : simE b a := by
@@ -350,95 +360,15 @@ macro "sim_auto" : tactic => `(tactic| repeat' (first
 
 theorem eval_record_eq_ord (kes : List (String × Expr)) (env : Env) :
     eval (.record kes) env = evalRecordLitOrd kes env := by
-  rw [eval]; unfold evalRecordLitOrd
-  cases evalKVs kes env <;> rfl
+  rw [eval_recordLit]; unfold evalRecordLitOrd
+  cases evalKVs (canonKVs kes) env <;> rfl
 
-theorem evalRecordLitOrd_error_iff (kes : List (String × Expr)) (env : Env) :
-    (∃ e, evalRecordLitOrd kes env = .error e) ↔ ∃ ke ∈ kes, ∃ e, eval ke.2 env = .error e := by
-  unfold evalRecordLitOrd
-  constructor
-  · rintro ⟨e, h⟩
-    cases hk : evalKVs kes env with
-    | error e' =>
-      obtain ⟨ke, hm, he⟩ := evalKVs_error_mem kes env e' hk
-      exact ⟨ke, hm, e', he⟩
-    | ok kvs => rw [hk] at h; cases h
-  · rintro ⟨ke, hm, e, he⟩
-    obtain ⟨e', h'⟩ := evalKVs_error_of_mem kes env ke e hm he
-    exact ⟨e', by rw [h']⟩
-
+/-- the map yields its (distinct) keys in any order: the literal evaluates to the same result, error kind included -/
 theorem evalRecordLitOrd_perm (kes₁ kes₂ : List (String × Expr)) (env : Env)
     (hp : kes₁.Perm kes₂) (hk : (kes₁.map (·.1)).Nodup) :
-    ((∃ e, evalRecordLitOrd kes₁ env = .error e) ↔ (∃ e, evalRecordLitOrd kes₂ env = .error e)) ∧
-    (∀ v w, evalRecordLitOrd kes₁ env = .ok v → evalRecordLitOrd kes₂ env = .ok w → v = w) ∧
-    ((∀ ke ∈ kes₁, ∀ ke' ∈ kes₁, ∀ e e', eval ke.2 env = .error e → eval ke'.2 env = .error e' → e = e') →
-      evalRecordLitOrd kes₁ env = evalRecordLitOrd kes₂ env) := by
-  have herr : (∃ e, evalRecordLitOrd kes₁ env = .error e) ↔ (∃ e, evalRecordLitOrd kes₂ env = .error e) := by
-    rw [evalRecordLitOrd_error_iff, evalRecordLitOrd_error_iff]
-    constructor <;> rintro ⟨ke, hm, h⟩
-    · exact ⟨ke, hp.mem_iff.mp hm, h⟩
-    · exact ⟨ke, hp.mem_iff.mpr hm, h⟩
-  -- when no entry errors both orders produce the same record
-  have hok : (∀ ke ∈ kes₁, ∃ v, eval ke.2 env = .ok v) → evalRecordLitOrd kes₁ env = evalRecordLitOrd kes₂ env := by
-    intro hall
-    have hall2 : ∀ ke ∈ kes₂, ∃ v, eval ke.2 env = .ok v := fun ke hm => hall ke (hp.mem_iff.mpr hm)
-    unfold evalRecordLitOrd
-    rw [evalKVs_ok_of_all_ok kes₁ env hall, evalKVs_ok_of_all_ok kes₂ env hall2]
-    simp only
-    congr 1
-    apply mkRecord_perm (hp.map _)
-    have : (kes₁.map (entryVal env)).map (·.1) = kes₁.map (·.1) := by
-      simp [List.map_map, entryVal, Function.comp_def]
-    rw [this]; exact hk
-  have hcases : (∀ ke ∈ kes₁, ∃ v, eval ke.2 env = .ok v) ∨ (∃ ke ∈ kes₁, ∃ e, eval ke.2 env = .error e) := by
-    by_cases h : ∃ ke ∈ kes₁, ∃ e, eval ke.2 env = .error e
-    · exact .inr h
-    · refine .inl (fun ke hm => ?_)
-      cases hv : eval ke.2 env with
-      | ok v => exact ⟨v, rfl⟩
-      | error e => exact absurd ⟨ke, hm, e, hv⟩ h
-  refine ⟨herr, ?_, ?_⟩
-  · intro v w h1 h2
-    rcases hcases with hall | hbad
-    · have := hok hall; rw [h1, h2] at this; cases this; rfl
-    · obtain ⟨e, he⟩ := (evalRecordLitOrd_error_iff kes₁ env).mpr hbad
-      rw [he] at h1; cases h1
-  · intro hsame
-    rcases hcases with hall | hbad
-    · exact hok hall
-    · obtain ⟨e1, he1⟩ := (evalRecordLitOrd_error_iff kes₁ env).mpr hbad
-      obtain ⟨e2, he2⟩ := herr.mp ⟨e1, he1⟩
-      rw [he1, he2]
-      -- both reported errors are errors of entries of kes₁, hence equal
-      have m1 : ∃ ke ∈ kes₁, eval ke.2 env = .error e1 := by
-        unfold evalRecordLitOrd at he1
-        cases hk1 : evalKVs kes₁ env with
-        | error e' => rw [hk1] at he1; cases he1; exact evalKVs_error_mem kes₁ env e1 hk1
-        | ok kvs => rw [hk1] at he1; cases he1
-      have m2 : ∃ ke ∈ kes₁, eval ke.2 env = .error e2 := by
-        unfold evalRecordLitOrd at he2
-        cases hk2 : evalKVs kes₂ env with
-        | error e' =>
-          rw [hk2] at he2; cases he2
-          obtain ⟨ke, hm, h⟩ := evalKVs_error_mem kes₂ env e2 hk2
-          exact ⟨ke, hp.mem_iff.mpr hm, h⟩
-        | ok kvs => rw [hk2] at he2; cases he2
-      obtain ⟨ke, hm, h⟩ := m1
-      obtain ⟨ke', hm', h'⟩ := m2
-      rw [hsame ke hm ke' hm' e1 e2 h h']
-
-/-- two erroring entries of different kinds: the reported error depends on the iteration order -/
-theorem evalRecordLitOrd_perm_counterexample :
-    ∃ (kes₁ kes₂ : List (String × Expr)) (env : Env), kes₁.Perm kes₂ ∧ (kes₁.map (·.1)).Nodup ∧
-      evalRecordLitOrd kes₁ env ≠ evalRecordLitOrd kes₂ env :=
-  ⟨[("a", .binop .add (.lit (.long 1)) (.lit (.str "x"))), ("b", .access (.var .context) "missing")],
-   [("b", .access (.var .context) "missing"), ("a", .binop .add (.lit (.long 1)) (.lit (.str "x")))],
-   { emptyEnv with context := .record [] },
-   List.Perm.swap _ _ _, by decide, by
-     intro h
-     have h2 := congrArg (fun r => match r with | Except.error e => some e | Except.ok _ => none) h
-     revert h2; decide +kernel⟩
-
+    evalRecordLitOrd kes₁ env = evalRecordLitOrd kes₂ env := by
+  unfold evalRecordLitOrd
+  rw [canonKVs_perm hp hk]
 
 /-! ### containsAll / containsAny -/
 
@@ -553,53 +483,10 @@ theorem doIn_set_perm (env : Env) (a : UID) (xs xs' : List Value) (hp : xs.Perm 
     unfold doIn
     simp only [mapM_toEntity_error_of_bad xs x hx hb, mapM_toEntity_error_of_bad xs' x (hp.mem_iff.mp hx) hb]
 
-/-- …but the MESSAGE names the first non-entity member met: with two non-entity members of different
-    types it depends on the order (genuine defect of the unchanged code, message only). -/
-theorem inSetFirstBad_perm_counterexample :
-    ∃ xs xs' : List Value, xs.Perm xs' ∧ inSetFirstBad xs ≠ inSetFirstBad xs' :=
-  ⟨[.long 1, .str "x"], [.str "x", .long 1], List.Perm.swap _ _ _, by decide⟩
-
-theorem inSetFirstBad_mem (xs : List Value) (k : String) (h : inSetFirstBad xs = some k) :
-    ∃ x ∈ xs, (∀ t i, x ≠ .entity t i) ∧ x.kind = k := by
-  induction xs with
-  | nil => simp [inSetFirstBad] at h
-  | cons y ys ih =>
-    cases y with
-    | entity t i =>
-      simp only [inSetFirstBad] at h
-      obtain ⟨x, hx, hb⟩ := ih h
-      exact ⟨x, by simp [hx], hb⟩
-    | _ =>
-      simp only [inSetFirstBad, Option.some.injEq] at h
-      exact ⟨_, List.mem_cons_self, (fun t i hh => by cases hh), h⟩
-
-theorem inSetFirstBad_none_iff (xs : List Value) : inSetFirstBad xs = none ↔ ∀ x ∈ xs, ∃ t i, x = .entity t i := by
-  induction xs with
-  | nil => simp [inSetFirstBad]
-  | cons y ys ih =>
-    cases y with
-    | entity t i => simp [inSetFirstBad, ih]
-    | _ => simp [inSetFirstBad]
-
-/-- the message is order-independent when all non-entity members have the same type -/
-theorem inSetFirstBad_perm_of_sameKind (xs xs' : List Value) (hp : xs.Perm xs')
-    (hsame : ∀ x ∈ xs, ∀ y ∈ xs, (∀ t i, x ≠ .entity t i) → (∀ t i, y ≠ .entity t i) → x.kind = y.kind) :
-    inSetFirstBad xs = inSetFirstBad xs' := by
-  cases h1 : inSetFirstBad xs with
-  | none =>
-    have := (inSetFirstBad_none_iff xs).mp h1
-    exact ((inSetFirstBad_none_iff xs').mpr (fun x hx => this x (hp.mem_iff.mpr hx))).symm
-  | some k =>
-    cases h2 : inSetFirstBad xs' with
-    | none =>
-      have := (inSetFirstBad_none_iff xs').mp h2
-      have := (inSetFirstBad_none_iff xs).mpr (fun x hx => this x (hp.mem_iff.mp hx))
-      rw [this] at h1; cases h1
-    | some k' =>
-      obtain ⟨x, hx, hb, hk⟩ := inSetFirstBad_mem xs k h1
-      obtain ⟨y, hy, hb', hk'⟩ := inSetFirstBad_mem xs' k' h2
-      rw [← hk, ← hk', hsame x hx y (hp.mem_iff.mpr hy) hb hb']
-
+/-- …and so is the MESSAGE since the repair: of the conversion errors the one that sorts first is reported -/
+theorem inSetFirstBad_perm (xs xs' : List Value) (hp : xs.Perm xs') : inSetFirstBad xs = inSetFirstBad xs' := by
+  unfold inSetFirstBad
+  rw [sortBy_eq_of_perm strLe_linOrd (hp.filterMap _)]
 
 /-! ### the entity store: only `Get` is used, so insertion order is irrelevant -/
 
@@ -739,7 +626,7 @@ theorem eval_sameStore : ∀ (e : Expr) (env env' : Env), SameStore env env' →
     simp only [eval, ih]
   | .record kes, env, env', h => by
     have ih := evalKVs_sameStore kes env env' h
-    simp only [eval, ih]
+    exact eval_recordLit_congr kes kes env env' (List.map_congr_left (fun ke hke => by rw [ih ke hke]))
   | .call fn args, env, env', h => by
     have ih := fun ks => evalTyped_sameStore args ks env env' h
     simp only [eval, ih]
@@ -749,12 +636,14 @@ theorem evalList_sameStore : ∀ (es : List Expr) (env env' : Env), SameStore en
     have ih1 := eval_sameStore e env env' h
     have ih2 := evalList_sameStore es env env' h
     simp only [evalList, ih1, ih2]
-theorem evalKVs_sameStore : ∀ (kes : List (String × Expr)) (env env' : Env), SameStore env env' → evalKVs kes env = evalKVs kes env'
-  | [], _, _, _ => by simp [evalKVs]
+theorem evalKVs_sameStore : ∀ (kes : List (String × Expr)) (env env' : Env), SameStore env env' →
+    ∀ ke ∈ kes, eval ke.2 env = eval ke.2 env'
+  | [], _, _, _ => by intro ke hke; cases hke
   | (k, e) :: kes, env, env', h => by
-    have ih1 := eval_sameStore e env env' h
-    have ih2 := evalKVs_sameStore kes env env' h
-    simp only [evalKVs, ih1, ih2]
+    intro ke hke
+    rcases List.mem_cons.mp hke with hke | hke
+    · rw [hke]; exact eval_sameStore e env env' h
+    · exact evalKVs_sameStore kes env env' h ke hke
 theorem evalTyped_sameStore : ∀ (es : List Expr) (ks : List Kind) (env env' : Env), SameStore env env' → evalTyped es ks env = evalTyped es ks env'
   | [], _, _, _, _ => by simp [evalTyped]
   | e :: es, ks, env, env', h => by
@@ -766,119 +655,103 @@ end
 
 /-! ### schedules of a whole expression -/
 
-theorem evalRecord_perm_sim (mid kes' : List (String × Expr)) (env : Env) (hp : mid.Perm kes')
-    (hk : (mid.map (·.1)).Nodup) : Res.sim (eval (.record mid) env) (eval (.record kes') env) := by
-  rw [eval_record_eq_ord, eval_record_eq_ord]
-  obtain ⟨h1, h2, _⟩ := evalRecordLitOrd_perm mid kes' env hp hk
-  cases ha : evalRecordLitOrd mid env with
-  | ok v =>
-    cases hb : evalRecordLitOrd kes' env with
-    | ok w => exact h2 v w ha hb
-    | error e =>
-      obtain ⟨e', he'⟩ := h1.mpr ⟨e, hb⟩
-      rw [ha] at he'; cases he'
-  | error e =>
-    obtain ⟨e', he'⟩ := h1.mp ⟨e, ha⟩
-    rw [he']; trivial
+/-- whatever order the (distinct) entries are listed in, the literal evaluates alike -/
+theorem evalRecord_perm (mid kes' : List (String × Expr)) (env : Env) (hp : mid.Perm kes')
+    (hk : (mid.map (·.1)).Nodup) : eval (.record mid) env = eval (.record kes') env :=
+  eval_recordLit_perm mid kes' env hp hk
 
 mutual
-theorem eval_resched : ∀ (e e' : Expr) (env : Env), Resched e e' → Res.sim (eval e env) (eval e' env)
-  | .lit v, e', env, h => by simp only [Resched] at h; subst h; exact simE_refl _
-  | .var x, e', env, h => by simp only [Resched] at h; subst h; exact simE_refl _
+theorem eval_resched : ∀ (e e' : Expr) (env : Env), Resched e e' → eval e env = eval e' env
+  | .lit v, e', env, h => by simp only [Resched] at h; subst h; rfl
+  | .var x, e', env, h => by simp only [Resched] at h; subst h; rfl
   | .unop op a, e', env, h => by
     simp only [Resched] at h
     obtain ⟨a', rfl, ha⟩ := h
     have ih := eval_resched a a' env ha
-    cases op <;> simp only [eval] <;> sim_auto
+    cases op <;> simp only [eval, ih]
   | .binop op l r, e', env, h => by
     simp only [Resched] at h
     obtain ⟨l', r', rfl, hl, hr⟩ := h
     have ihl := eval_resched l l' env hl
     have ihr := eval_resched r r' env hr
-    cases op <;> simp only [eval] <;> sim_auto
+    cases op <;> simp only [eval, ihl, ihr]
   | .ite c t f, e', env, h => by
     simp only [Resched] at h
     obtain ⟨c', t', f', rfl, hc, ht, hf⟩ := h
     have ihc := eval_resched c c' env hc
     have iht := eval_resched t t' env ht
     have ihf := eval_resched f f' env hf
-    simp only [eval]; sim_auto
+    simp only [eval, ihc, iht, ihf]
   | .access a k, e', env, h => by
     simp only [Resched] at h
     obtain ⟨a', rfl, ha⟩ := h
     have ih := eval_resched a a' env ha
-    simp only [eval]; sim_auto
+    simp only [eval, ih]
   | .has a k, e', env, h => by
     simp only [Resched] at h
     obtain ⟨a', rfl, ha⟩ := h
     have ih := eval_resched a a' env ha
-    simp only [eval]; sim_auto
+    simp only [eval, ih]
   | .like a p, e', env, h => by
     simp only [Resched] at h
     obtain ⟨a', rfl, ha⟩ := h
     have ih := eval_resched a a' env ha
-    simp only [eval]; sim_auto
+    simp only [eval, ih]
   | .is a ty, e', env, h => by
     simp only [Resched] at h
     obtain ⟨a', rfl, ha⟩ := h
     have ih := eval_resched a a' env ha
-    simp only [eval]; sim_auto
+    simp only [eval, ih]
   | .isIn a ty r, e', env, h => by
     simp only [Resched] at h
     obtain ⟨a', r', rfl, ha, hr⟩ := h
     have iha := eval_resched a a' env ha
     have ihr := eval_resched r r' env hr
-    simp only [eval]; sim_auto
+    simp only [eval, iha, ihr]
   | .set es, e', env, h => by
     simp only [Resched] at h
     obtain ⟨es', rfl, hes⟩ := h
     have ih := evalList_resched es es' env hes
-    simp only [eval]; sim_auto
+    simp only [eval, ih]
   | .record kes, e', env, h => by
     simp only [Resched] at h
     obtain ⟨mid, kes', rfl, hmid, hp, hk⟩ := h
     have ih := evalKVs_resched kes mid env hmid
-    have s1 : Res.sim (eval (.record kes) env) (eval (.record mid) env) := by
-      simp only [eval]; sim_auto
+    have s1 : eval (.record kes) env = eval (.record mid) env := eval_recordLit_congr kes mid env env ih
     have hk' : (mid.map (·.1)).Nodup := by rw [ReschedKVs.keys_eq kes mid hmid]; exact hk
-    exact simE_trans s1 (evalRecord_perm_sim mid kes' env hp hk')
+    exact s1.trans (evalRecord_perm mid kes' env hp hk')
   | .call fn args, e', env, h => by
     simp only [Resched] at h
     obtain ⟨args', rfl, hargs⟩ := h
     have ih := fun ks => evalTyped_resched args args' ks env hargs
     have hl := ReschedList.length_eq args args' hargs
-    simp only [eval, hl]
-    split
-    · exact simE_bind (ih _) (fun _ => simE_refl _)
-    · split
-      · exact simE_refl _
-      · split
-        · exact simE_refl _
-        · exact simE_bind (ih _) (fun _ => simE_refl _)
-theorem evalList_resched : ∀ (es es' : List Expr) (env : Env), ReschedList es es' → simE (evalList es env) (evalList es' env)
-  | [], es', env, h => by simp only [ReschedList] at h; subst h; exact simE_refl _
+    simp only [eval, hl, ih]
+theorem evalList_resched : ∀ (es es' : List Expr) (env : Env), ReschedList es es' → evalList es env = evalList es' env
+  | [], es', env, h => by simp only [ReschedList] at h; subst h; rfl
   | e :: es, es', env, h => by
     simp only [ReschedList] at h
     obtain ⟨x, xs, rfl, hx, hxs⟩ := h
     have ih1 := eval_resched e x env hx
     have ih2 := evalList_resched es xs env hxs
-    simp only [evalList]; sim_auto
-theorem evalKVs_resched : ∀ (kes kes' : List (String × Expr)) (env : Env), ReschedKVs kes kes' → simE (evalKVs kes env) (evalKVs kes' env)
-  | [], kes', env, h => by simp only [ReschedKVs] at h; subst h; exact simE_refl _
+    simp only [evalList, ih1, ih2]
+/-- the entries of two schedules of a literal, position by position: same key, same result -/
+theorem evalKVs_resched : ∀ (kes kes' : List (String × Expr)) (env : Env), ReschedKVs kes kes' →
+    kes.map (fun ke => (ke.1, eval ke.2 env)) = kes'.map (fun ke => (ke.1, eval ke.2 env))
+  | [], kes', env, h => by simp only [ReschedKVs] at h; subst h; rfl
   | (k, e) :: kes, kes', env, h => by
     simp only [ReschedKVs] at h
     obtain ⟨x, xs, rfl, hx, hxs⟩ := h
     have ih1 := eval_resched e x env hx
     have ih2 := evalKVs_resched kes xs env hxs
-    simp only [evalKVs]; sim_auto
-theorem evalTyped_resched : ∀ (es es' : List Expr) (ks : List Kind) (env : Env), ReschedList es es' → simE (evalTyped es ks env) (evalTyped es' ks env)
-  | [], es', ks, env, h => by simp only [ReschedList] at h; subst h; exact simE_refl _
+    simp only [List.map_cons, ih1, ih2]
+theorem evalTyped_resched : ∀ (es es' : List Expr) (ks : List Kind) (env : Env), ReschedList es es' → evalTyped es ks env = evalTyped es' ks env
+  | [], es', ks, env, h => by simp only [ReschedList] at h; subst h; rfl
   | e :: es, es', ks, env, h => by
     simp only [ReschedList] at h
     obtain ⟨x, xs, rfl, hx, hxs⟩ := h
     have ih1 := eval_resched e x env hx
     have ih2 := evalTyped_resched es xs ks.tail env hxs
-    simp only [evalTyped]; sim_auto
+    simp only [evalTyped, ih1, ih2]
 end
 
 
@@ -946,12 +819,12 @@ theorem policyToExpr_resched (p p' : Policy) (h : ReschedPolicy p p') : Resched 
     obtain ⟨y, ys, rfl, hy, hys⟩ := hall
     exact andAll_resched rest ys e y hy hys
 
-/-- a policy under two schedules: satisfied alike, erroring alike (the error kind may differ) -/
-theorem compile_resched_sim (p p' : Policy) (h : ReschedPolicy p p') (env : Env) :
-    simE (evalBool (compile p) env) (evalBool (compile p') env) := by
+/-- a policy under two schedules: the same result (satisfied alike, erroring alike with the same error kind) -/
+theorem compile_resched (p p' : Policy) (h : ReschedPolicy p p') (env : Env) :
+    evalBool (compile p) env = evalBool (compile p') env := by
   rw [C04_compile_preserves, C04_compile_preserves]
   unfold evalBool
-  exact simE_bindE (eval_resched _ _ env (policyToExpr_resched p p' h)) (fun _ => simE_refl _)
+  rw [eval_resched _ _ env (policyToExpr_resched p p' h)]
 
 /-- the same policies (same ids) under another schedule, listed in the same order -/
 def ReschedPolicies : List (PolicyID × Policy) → List (PolicyID × Policy) → Prop
@@ -972,30 +845,25 @@ theorem errorsOf_cons (c : Policy → Expr) (env : Env) (ip : PolicyID × Policy
 
 theorem authorize_resched (ps ps' : List (PolicyID × Policy)) (env : Env) (h : ReschedPolicies ps ps') :
     satForbids compile env ps = satForbids compile env ps' ∧ satPermits compile env ps = satPermits compile env ps' ∧
-    (errorsOf compile env ps).map (fun x => (x.1, x.2.1)) = (errorsOf compile env ps').map (fun x => (x.1, x.2.1)) := by
+    errorsOf compile env ps = errorsOf compile env ps' := by
   induction ps generalizing ps' with
   | nil => simp only [ReschedPolicies] at h; subst h; simp
   | cons ip ps ih =>
     simp only [ReschedPolicies] at h
     obtain ⟨p', ps'', rfl, hp, hps⟩ := h
     obtain ⟨i1, i2, i3⟩ := ih ps'' hps
-    have hsim := compile_resched_sim ip.2 p' hp env
+    have heq := compile_resched ip.2 p' hp env
     obtain ⟨heff, _, _, _, hpos, _⟩ := hp
     have hsat : satBy compile env (ip.1, p') = satBy compile env ip := by
-      unfold satBy
-      cases h1 : evalBool (compile ip.2) env <;> cases h2 : evalBool (compile p') env <;>
-        simp only [h1, h2, simE] at hsim <;> simp_all
-    have herr : (errBy compile env (ip.1, p')).toList.map (fun x => (x.1, x.2.1)) =
-        (errBy compile env ip).toList.map (fun x => (x.1, x.2.1)) := by
-      unfold errBy
-      cases h1 : evalBool (compile ip.2) env <;> cases h2 : evalBool (compile p') env <;>
-        simp only [h1, h2, simE] at hsim <;> simp_all
+      unfold satBy; simp only [heq]
+    have herr : errBy compile env (ip.1, p') = errBy compile env ip := by
+      unfold errBy; simp only [heq, hpos]
     have hforb : isForbid (ip.1, p') = isForbid ip := by simp [isForbid, heff]
     have hperm : isPermit (ip.1, p') = isPermit ip := by simp [isPermit, heff]
     have htag : tag (ip.1, p') = tag ip := by simp [tag, hpos]
     refine ⟨?_, ?_, ?_⟩
     · rw [satForbids_cons, satForbids_cons, hsat, hforb, htag, i1]
     · rw [satPermits_cons, satPermits_cons, hsat, hperm, htag, i2]
-    · rw [errorsOf_cons, errorsOf_cons, List.map_append, List.map_append, herr, i3]
+    · rw [errorsOf_cons, errorsOf_cons, herr, i3]
 
 end CedarGo
